@@ -477,7 +477,8 @@ func newServer(creds int, sv string) *server {
 		if dir == "" {
 			dir = os.TempDir()
 		}
-		cfg.HTTPLogFile = filepath.Join(dir, fmt.Sprintf("c11-http-%d-%s-%d.log", creds, sv, os.Getpid()))
+		cfg.HTTPLogFile = filepath.Join(dir, fmt.Sprintf("c11-http-%d-%s.log", creds, sv))
+		os.Remove(cfg.HTTPLogFile) // one file per configuration, started afresh (the API appends)
 	}
 	scheme := "http"
 	if sv[2] == '1' {
